@@ -163,6 +163,24 @@ Proof.
     split; simpl; auto. single.
 Qed.
 
+(** C15: no constructor panics, for any capacity (0 included) *)
+Lemma fob_new_never_panics cap seed w : exists q w', fob_new P cap seed w = (NewOk q, w').
+Proof. unfold fob_new, heap_cap_for. destruct (fub_new cap w) as [f w1]. eauto. Qed.
+
+Lemma fo_with_capacity_never_panics cap seed w : exists q w', fo_with_capacity P cap seed w = (NewOk q, w').
+Proof. unfold fo_with_capacity, heap_cap_for. destruct (fu_with_capacity cap w) as [u w1]. eauto. Qed.
+
+Lemma build_not_dead t p inits ups w : fst (build P t p inits ups w) <> CDead.
+Proof.
+  unfold build.
+  destruct t; repeat (match goal with |- context [if ?c then _ else _] => destruct c end);
+    try (destruct (fob_new_never_panics (p_cap p) (seed_of p) w) as (q & w' & ->));
+    try (destruct (fob_new_never_panics (p_cap p) 0%Z w) as (q & w' & ->));
+    try (destruct (fo_with_capacity_never_panics (p_cap p) (seed_of p) w) as (q & w' & ->));
+    repeat (match goal with |- context [let '(_, _) := ?x in _] => destruct x end);
+    cbn [fst]; try discriminate.
+Qed.
+
 (** ** push *)
 Lemma winv_refused own cur c w : winv own cur w -> winv own cur (refused_result c w).
 Proof. intros. unfold refused_result. repeat apply winv_emit; auto. Qed.
